@@ -47,6 +47,13 @@ pub enum Variant {
     /// first, the base rule re-loaded); every observation of the history must equal the run in
     /// which the final rule was loaded from the start
     FreshEquivalent,
+    /// parameter `alt` of the subject rule changes in the MIDDLE of the traffic history (before
+    /// step `at`), the history runs on, everything is exited and a long quiet period passes (to
+    /// an instant congruent with the start for every window length in use); the history is then
+    /// driven again: every observation must equal the run of a fresh world that had the changed
+    /// rule from the start. Nothing of the old rule or of the traffic it saw may linger, and no
+    /// step may panic or hang on the way.
+    MidChange,
 }
 
 #[derive(Serialize, Deserialize, Clone, Debug)]
@@ -350,7 +357,7 @@ fn do_reload(f: Family, v: Variant) -> Result<(), String> {
                 Variant::LoadResSame => {
                     $m::load_rules_of_resource(&R.to_string(), vec![subj, lax]).map_err(|e| format!("load-for-resource-failed: {}", e))?;
                 }
-                Variant::FreshEquivalent => unreachable!("handled by run_history_loaded"),
+                Variant::FreshEquivalent | Variant::MidChange => unreachable!("handled by run_history_loaded / run_midchange"),
             }
         }};
     }
@@ -394,6 +401,65 @@ impl cb::StateChangeListener for Rec {
 
 /// Run the family's history, optionally with a reload before step `at`. Returns the observation
 /// of every step, and (kept objects, total objects) of the identity check.
+/// one step of a history on the live world; returns the observation
+fn do_step(f: Family, st: &Step, held: &mut Vec<EntryStrongPtr>, log: &Log, builds: &mut u64) -> String {
+    let args = || if kind(f) == Kind::Hotspot { Some(vec!["A".to_string()]) } else { None };
+    clock::take_sleeps();
+    let o = match st {
+        Step::Arrive { gap } => {
+            clock::advance_ms(*gap);
+            let t0 = clock::get_ns();
+            *builds += 1;
+            match build_full(R, TrafficType::Outbound, 1, args(), None) {
+                Built::Ok(e) => {
+                    e.exit();
+                    format!("admitted+{}ns", clock::get_ns() - t0)
+                }
+                Built::Blocked(b, _) => format!("rejected:{}", b.block_type),
+            }
+        }
+        Step::Burst { gap, n } => {
+            clock::advance_ms(*gap);
+            let mut a = 0;
+            for _ in 0..*n {
+                *builds += 1;
+                if let Built::Ok(e) = build(R, TrafficType::Outbound, 1) {
+                    a += 1;
+                    e.exit();
+                }
+            }
+            format!("admitted {} of {}", a, n)
+        }
+        Step::Enter { gap } => {
+            clock::advance_ms(*gap);
+            *builds += 1;
+            match build_full(R, TrafficType::Outbound, 1, args(), None) {
+                Built::Ok(e) => {
+                    held.push(e);
+                    "admitted".to_string()
+                }
+                Built::Blocked(b, _) => format!("rejected:{}", b.block_type),
+            }
+        }
+        Step::ExitOldest { gap, err } => {
+            clock::advance_ms(*gap);
+            if held.is_empty() {
+                "nothing-to-exit".to_string()
+            } else {
+                let e = held.remove(0);
+                if *err {
+                    e.set_err(sentinel_core::Error::msg("boom"));
+                }
+                e.exit();
+                "exited".to_string()
+            }
+        }
+    };
+    let states: Vec<String> = cb::get_breakers_of_resource(&R.to_string()).iter().filter(|b| b.bound_rule().strategy == cb::BreakerStrategy::ErrorCount).map(|b| format!("{:?}", b.current_state())).collect();
+    let l: Vec<String> = log.lock().unwrap().iter().filter(|e| e.ends_with(R)).cloned().collect();
+    format!("{} {:?} {:?}", o, states, l)
+}
+
 pub fn run_history(f: Family, reload: Option<(Variant, usize)>) -> Result<(Vec<String>, u64), String> {
     run_history_loaded(f, reload, None)
 }
@@ -415,7 +481,6 @@ pub fn run_history_loaded(f: Family, reload: Option<(Variant, usize)>, loads: Op
     let mut held: Vec<EntryStrongPtr> = vec![];
     let mut obs = vec![];
     let mut builds = 0u64;
-    let args = || if kind(f) == Kind::Hotspot { Some(vec!["A".to_string()]) } else { None };
     for (i, st) in history(f).iter().enumerate() {
         if let Some((v, at)) = reload {
             if at == i {
@@ -433,60 +498,7 @@ pub fn run_history_loaded(f: Family, reload: Option<(Variant, usize)>, loads: Op
                 }
             }
         }
-        clock::take_sleeps();
-        let o = match st {
-            Step::Arrive { gap } => {
-                clock::advance_ms(*gap);
-                let t0 = clock::get_ns();
-                builds += 1;
-                match build_full(R, TrafficType::Outbound, 1, args(), None) {
-                    Built::Ok(e) => {
-                        e.exit();
-                        format!("admitted+{}ns", clock::get_ns() - t0)
-                    }
-                    Built::Blocked(b, _) => format!("rejected:{}", b.block_type),
-                }
-            }
-            Step::Burst { gap, n } => {
-                clock::advance_ms(*gap);
-                let mut a = 0;
-                for _ in 0..*n {
-                    builds += 1;
-                    if let Built::Ok(e) = build(R, TrafficType::Outbound, 1) {
-                        a += 1;
-                        e.exit();
-                    }
-                }
-                format!("admitted {} of {}", a, n)
-            }
-            Step::Enter { gap } => {
-                clock::advance_ms(*gap);
-                builds += 1;
-                match build_full(R, TrafficType::Outbound, 1, args(), None) {
-                    Built::Ok(e) => {
-                        held.push(e);
-                        "admitted".to_string()
-                    }
-                    Built::Blocked(b, _) => format!("rejected:{}", b.block_type),
-                }
-            }
-            Step::ExitOldest { gap, err } => {
-                clock::advance_ms(*gap);
-                if held.is_empty() {
-                    "nothing-to-exit".to_string()
-                } else {
-                    let e = held.remove(0);
-                    if *err {
-                        e.set_err(sentinel_core::Error::msg("boom"));
-                    }
-                    e.exit();
-                    "exited".to_string()
-                }
-            }
-        };
-        let states: Vec<String> = cb::get_breakers_of_resource(&R.to_string()).iter().filter(|b| b.bound_rule().strategy == cb::BreakerStrategy::ErrorCount).map(|b| format!("{:?}", b.current_state())).collect();
-        let l: Vec<String> = log.lock().unwrap().iter().filter(|e| e.ends_with(R)).cloned().collect();
-        obs.push(format!("{} {:?} {:?}", o, states, l));
+        obs.push(do_step(f, st, &mut held, &log, &mut builds));
     }
     for e in held {
         e.exit();
@@ -577,11 +589,80 @@ pub fn configs(thorough: bool) -> Vec<Cfg> {
                 }
             }
         }
+        if kind(f) != Kind::Breaker {
+            for alt in 0..alts(f).len() {
+                for at in 0..=n {
+                    for per_resource in [false, true] {
+                        if !thorough && (at + alt) % 2 != per_resource as usize {
+                            continue;
+                        }
+                        v.push(Cfg { family: f, variant: Variant::MidChange, at, alt, per_resource, reverse: false });
+                    }
+                }
+            }
+        }
     }
     v
 }
 
+// a multiple of every window and bucket length in use (lcm of 700, 300, 5000, 6000 ms = 210 000)
+const QUIET_MS: u64 = 4_200_000;
+
+fn run_midchange(c: &Cfg) -> Result<(u64, bool), String> {
+    let f = c.family;
+    let (fresh, b1) = run_history_loaded(f, None, Some((Some(c.alt), None)))?;
+    reset_world(T0_MS + 250);
+    let log: Log = Arc::new(Mutex::new(vec![]));
+    load_with(&subject_alt(f, None), false)?;
+    let steps = history(f);
+    let mut held: Vec<EntryStrongPtr> = vec![];
+    let mut builds = 0u64;
+    for (i, st) in steps.iter().enumerate() {
+        if i == c.at {
+            load_with(&subject_alt(f, Some(c.alt)), c.per_resource)?;
+        }
+        do_step(f, st, &mut held, &log, &mut builds);
+    }
+    if c.at >= steps.len() {
+        load_with(&subject_alt(f, Some(c.alt)), c.per_resource)?;
+    }
+    for e in held.drain(..) {
+        e.exit();
+    }
+    if clock::get_ms() >= T0_MS + 250 + QUIET_MS {
+        return Err("MACHINERY history longer than the quiet period".into());
+    }
+    clock::set_ms(T0_MS + 250 + QUIET_MS);
+    let mut tail = vec![];
+    for st in &steps {
+        tail.push(do_step(f, st, &mut held, &log, &mut builds));
+    }
+    for e in held.drain(..) {
+        e.exit();
+    }
+    for i in 0..fresh.len() {
+        if fresh[i] != tail[i] {
+            return Err(format!(
+                "old-state-lingers: {:?} history, parameter {} changed by a re-load ({}) before step {}, history finished, everything exited, {} s of silence: step {} of the same history then observes {:?}; a fresh world with the changed rule observes {:?}",
+                f,
+                alts(f)[c.alt],
+                if c.per_resource { "for the resource" } else { "for all resources" },
+                c.at,
+                QUIET_MS / 1000,
+                i,
+                tail[i],
+                fresh[i]
+            ));
+        }
+    }
+    let distinct: std::collections::BTreeSet<&str> = fresh.iter().map(|s| s.split(' ').next().unwrap()).collect();
+    Ok((b1 + builds, distinct.len() >= 2))
+}
+
 fn run_cfg(c: &Cfg) -> Result<(u64, bool), String> {
+    if c.variant == Variant::MidChange {
+        return run_midchange(c);
+    }
     if c.variant == Variant::FreshEquivalent {
         let (first, last) = if c.reverse { (Some(c.alt), None) } else { (None, Some(c.alt)) };
         let (fresh, b1) = run_history_loaded(c.family, None, Some((last, None)))?;
